@@ -22,7 +22,7 @@ from ..tools_cli import SETTINGS, ENUMS          # the documented table (same so
 PID = "C20"
 TOK, KEY = bytes(range(64)), bytes(range(32, 64))
 BOOL_OK = ["True", "true", "TRUE", "tRuE", "False", "false", "FALSE", "fAlSe", "1", "0"]
-GARBAGE = {"enum": ["bogus", "co ol", "cool!", "", "1x", "-", "None", "7.5", "999", "1.2.3"],
+GARBAGE = {"enum": ["bogus", "co ol", "cool!", "", "1x", "-", "None", "7.5", "999", "1.2.3", "2.5", "12.9", "0.5", "1.5", "25.5", "50.7", "100.9", "3.999"],
            "enumraw": ["bogus", "hi gh", "", "1x", "None", "4.5.6"],
            "bool": ["yes", "no", "on", "off", "tru", "", "maybe", "1x", "None", "t"],
            "int": ["abc", "", "4x", "forty", "None", "1.2.3"],
@@ -170,17 +170,21 @@ def collect(ctx, invs):
         st.pop("beep")
         if k % 7 == 0:
             st["hum"] = 0
+        st["turbo_pos"] = ["both", "alt", "primary", "both"][k % 4]          # where the unit reports an active turbo mode: both positions of the state message, or one
         fan_cap = [bytes([0x10, 0x02, 1, 1]), bytes([0x10, 0x02, 1, 0]), bytes([0x10, 0x02, 1, 7]), b""][(k // 6) % 4]   # custom speeds / presets only / none
         if capflag_of(k) and not fan_cap[3:4] == b"\x01" and k % 12 == 5:
             st["fan"] = rng.choice([1, 19, 33, 55, 79, 99, 101])             # the unit currently runs at a raw (non-preset) speed
+        nbreeze = sum(1 for a in args if a.split("=")[0] in ("breeze_away", "breeze_mild", "breezeless"))
+        ctl = bool(capflag_of(k) and nbreeze <= 1 and (k // 6) % 2 == 0)       # the unit advertises the combined breeze control and the client asks for capabilities
+        brz = bytes([0x43, 0x00, 1, 1]) if ctl else b""
         model = acdev.ACModel(state=dict(st, display=rng.random() < 0.5), state_len=24,
-                              caps_pages=[bytes([0xB5, 1 + (1 if fan_cap else 0)]) + fan_cap + bytes([0x14, 0x02, 1, 0, 0, 0])],      # fan capability varies, modes; NO display control
+                              caps_pages=[bytes([0xB5, 1 + (1 if fan_cap else 0) + (1 if ctl else 0)]) + fan_cap + brz + bytes([0x14, 0x02, 1, 0, 0, 0])],      # fan capability varies, modes; NO display control
                               props={0x09: b"\x00", 0x0A: b"\x00", 0x48: b"\x64", 0x42: b"\x01", 0x18: b"\x00", 0xE3: b"\x01\x00", 0x43: b"\x01"})
         rep = snap(model)
         capflag = ["--capabilities"] if capflag_of(k) else []          # capabilities queried before the settings are applied
         argv = ["control", "10.0.0.50"] + capflag + (["--token", TOK.hex(), "--key", KEY.hex(), "--id", str(rng.getrandbits(40))] if ver == 3 else []) + list(args)
         obs = run_cli(argv, model, ver)
-        obs.update(args=[B(a.encode()) for a in args], reported=rep, after=snap(model), ver=ver, argv=args, capflag=bool(capflag),
+        obs.update(args=[B(a.encode()) for a in args], reported=rep, after=snap(model), ver=ver, argv=args, capflag=bool(capflag), ctl=ctl,
                    fan_raw_without_custom_capability=bool(fan_cap[3:4] != b"\x01" and rep["fan"] not in (20, 40, 60, 80, 100, 102)))
         vectors.append(obs)
         ctx.count_distinct(tuple(args))
@@ -206,7 +210,7 @@ def judge(ctx, vectors, canaries=True):
         if i < n:
             v = vectors[i]
             ctx.violation("control " + ("--capabilities " if v.get("capflag") else "") + " ".join(v["argv"])[:160] + f" (V{v['ver']})", clause,
-                          {"argv": v["argv"], "capflag": v.get("capflag", False), "fan_raw_without_custom_capability": v.get("fan_raw_without_custom_capability", False),
+                          {"argv": v["argv"], "capflag": v.get("capflag", False), "ctl": v.get("ctl", False), "fan_raw_without_custom_capability": v.get("fan_raw_without_custom_capability", False),
                            "display_toggled": bool(v["reported"].get("display") != v["after"].get("display")), "ver": v["ver"], "reported": v["reported"], "after": v["after"], "exit": v["exit"], "exc": v["exc"], "sent": v["sent"]})
 
 
@@ -233,11 +237,11 @@ def replay(ctx: Ctx, path: str) -> int:
     import json
     c = json.load(open(path))["case"]
     model = acdev.ACModel(state={k: v for k, v in c["reported"].items()}, state_len=24,
-                          caps_pages=[bytes([0xB5, 2, 0x10, 0x02, 1, 1, 0x14, 0x02, 1, 0, 0, 0])],
+                          caps_pages=[bytes([0xB5, 3 if c.get("ctl") else 2, 0x10, 0x02, 1, 1]) + (bytes([0x43, 0x00, 1, 1]) if c.get("ctl") else b"") + bytes([0x14, 0x02, 1, 0, 0, 0])],
                           props={0x09: b"\x00", 0x0A: b"\x00", 0x48: b"\x64", 0x42: b"\x01", 0x18: b"\x00", 0xE3: b"\x01\x00", 0x43: b"\x01"})
     rep = snap(model)
     argv = ["control", "10.0.0.50"] + (["--capabilities"] if c.get("capflag") else []) + (["--token", TOK.hex(), "--key", KEY.hex(), "--id", "77"] if c["ver"] == 3 else []) + list(c["argv"])
     obs = run_cli(argv, model, c["ver"])
-    obs.update(args=[B(a.encode()) for a in c["argv"]], reported=rep, after=snap(model), ver=c["ver"], argv=c["argv"])
+    obs.update(args=[B(a.encode()) for a in c["argv"]], reported=rep, after=snap(model), ver=c["ver"], argv=c["argv"], ctl=bool(c.get("ctl", False)))
     judge(ctx, [obs], canaries=False)
     return ctx.finish(rule="replay of one recorded command line")
